@@ -130,6 +130,20 @@ def _worker(item):
         with open(adv, 'rb') as f1, open(adv2, 'rb') as f2:
             out['history_independent'] = f1.read() == f2.read()
         os.remove(adv2)
+        # ... and on a converter that has first exported the file to SEG-Y (the other thing an SgzConverter does)
+        if k % 2 == 0 and spec[1][0] * spec[1][1] <= 1000:
+            adv3, seg3 = os.path.join(d, f'a{k}e.sgz'), os.path.join(d, f'a{k}e.sgy')
+            try:
+                with env.quiet():
+                    with SgzConverter(src) as c:
+                        c.convert_to_segy(seg3)
+                        c.convert_to_adv_sgz(adv3)
+                with open(adv, 'rb') as f1, open(adv3, 'rb') as f2:
+                    out['history_independent'] = out['history_independent'] and f1.read() == f2.read()
+            finally:
+                for q in (adv3, seg3):
+                    if os.path.exists(q):
+                        os.remove(q)
         A, B = snapshot(src), snapshot(adv)
         out['same'] = {key: (A[key] == B[key]) if key != 'vol' else (A['vol'].shape == B['vol'].shape and codec.same_bits(A['vol'], B['vol']))
                        for key in ('vol', 'il', 'xl', 'z', 'ntr', 'structured', 'stored', 'text', 'bin', 'hash', 'hdr', 'tf')}
